@@ -601,6 +601,10 @@ func (r *Request) executeHandler() {
 
 		switch e := v.(type) {
 		case *Error:
+			if e == nil {
+				// A nil *Error has no code or message to respond with.
+				e = InternalError(errors.New("panic with nil *Error"))
+			}
 			if !r.replied {
 				r.error(e, r.meta())
 				// Return without logging as panicing with a *Error is considered
